@@ -92,7 +92,13 @@ def reruns(job):
             explore.play_script(pr, probe.script[: rng.randint(2, len(probe.script))])
             if pr.status() == "running":
                 pr.request("pausing")
-                for phase in ("pausing", "paused"):
+                for phase in ("pausing", "paused", "canceling"):
+                    if phase == "canceling":
+                        # a second probe of a prefix of the same history, canceled while actions are in flight
+                        pr = explore.make_run(case, [], model=m)
+                        explore.play_script(pr, probe.script[: random.Random(h64(seed, "cx")).randint(2, len(probe.script))])
+                        if pr.status() == "running" and pr.inflight:
+                            pr.request("canceling")
                     if pr.status() == phase:
                         active_hook_done[:] = []
                         rr = rng.random
